@@ -297,7 +297,15 @@ fn th_sweep_managed(args: &Args, rep: &mut Report, prop: &'static str) {
             let mut i = wk;
             while i < n {
                 let sc = &scenarios[i];
-                let out = run_sweep(prop, sc);
+                let mut out = run_sweep(prop, sc);
+                // the stable-hang verdict rests on a wall-clock watchdog: believed only if it repeats
+                if out.violations.first().map(|v| v.oracle == "stranded_waiter").unwrap_or(false) {
+                    let again = run_sweep(prop, sc);
+                    if again.violations.first().map(|v| v.oracle) != Some("stranded_waiter") {
+                        cov.inconclusive.push(format!("stable-hang verdict of {} did not repeat", sc.sig()));
+                        out = again;
+                    }
+                }
                 cov.evaluations += 1;
                 cov.events += out.events;
                 let mut h = vh_common::Hasher::default();
@@ -410,7 +418,14 @@ fn th_sweep_unmanaged(args: &Args, rep: &mut Report, prop: &'static str) {
             let mut i = wk;
             while i < n {
                 let sc = &scenarios[i];
-                let out = run_usweep(prop, sc);
+                let mut out = run_usweep(prop, sc);
+                if out.violations.first().map(|v| v.oracle == "stranded_caller").unwrap_or(false) {
+                    let again = run_usweep(prop, sc);
+                    if again.violations.first().map(|v| v.oracle) != Some("stranded_caller") {
+                        cov.inconclusive.push(format!("stable-hang verdict of {} did not repeat", sc.sig()));
+                        out = again;
+                    }
+                }
                 cov.evaluations += 1;
                 cov.events += out.events;
                 let mut h = vh_common::Hasher::default();
